@@ -60,6 +60,7 @@ type Spec struct {
 	Solver    string            `json:"solver"`
 	Workers   int               `json:"workers"`
 	BuildTags []string          `json:"build_tags"`
+	Cgo       bool              `json:"cgo"`
 }
 
 type stubRule struct {
@@ -76,6 +77,14 @@ type Config struct {
 
 // default noise stubs: logging and printing never matter to a property here
 var defaultStubs = map[string]string{
+	`^math/big\.addVV$`:     "redirect:math/big.addVV_g",
+	`^math/big\.subVV$`:     "redirect:math/big.subVV_g",
+	`^math/big\.addVW$`:     "redirect:math/big.addVW_g",
+	`^math/big\.subVW$`:     "redirect:math/big.subVW_g",
+	`^math/big\.shlVU$`:     "redirect:math/big.shlVU_g",
+	`^math/big\.shrVU$`:     "redirect:math/big.shrVU_g",
+	`^math/big\.mulAddVWW$`: "redirect:math/big.mulAddVWW_g",
+	`^math/big\.addMulVVW$`: "redirect:math/big.addMulVVW_g",
 	`^\(\*?go\.uber\.org/zap\.`:                           "noop",
 	`^go\.uber\.org/zap\.`:                                "opaque",
 	`^\(\*?go\.uber\.org/zap/zapcore\.`:                   "noop",
@@ -216,6 +225,9 @@ func main() {
 		Dir:     spec.Repo,
 		Overlay: overlay,
 		Env:     append(os.Environ(), "GOFLAGS=-mod=mod", "GOPROXY=off", "GOSUMDB=off", "GOTOOLCHAIN=local", "CGO_ENABLED=0"),
+	}
+	if spec.Cgo {
+		cfg.Env = append(cfg.Env, "CGO_ENABLED=1")
 	}
 	if len(spec.BuildTags) > 0 {
 		cfg.BuildFlags = []string{"-tags=" + strings.Join(spec.BuildTags, ",")}
